@@ -36,7 +36,9 @@ def install(ctx, strict_threshold=True):
         if form not in ('A', 'N', 'C', 'D', 'E', 'F'):
             return True
         chi = old['chi2']
-        n_data = int(self.source.n_data) if self.source is not None else 0
+        # n_data from the flags themselves (flags 1 and 4 only), not from the code under test
+        v_ = np.asarray(self.source.valid) if self.source is not None else np.array([])
+        n_data = int(np.sum((v_ == 1) | (v_ == 4)))
         wit = {'selector': (form, val), 'chi2': chi, 'n_data': n_data}
         if form in 'CDEF':
             # quantifier: thresholds never equal an attained value (docs say "below", code says <=)
